@@ -13,7 +13,8 @@
 //! the log at which each answer left the device.
 //!
 //! Case line:   S <id> <f><p> <op>,<op>,...        f = committed fabrics at the start (0..2), p = PASE session (0/1)
-//! sessions s: p = PASE, 1..5 = CASE session of the administrator on that fabric index
+//!          or  S <id> i<idx>+<idx>..:<p> <op>,...   committed fabrics at these local indexes (1..254)
+//! sessions s: p = PASE, 1..254 = CASE session of the administrator on that fabric index
 //!   A<s>:<t>     ArmFailSafe(t seconds)                  E        fail-safe timer expiry
 //!   K<s>:<nid>   CSRRequest + AddTrustedRootCertificate(next unused root) + AddNOC(node id)
 //!   u<s>:<nid>   CSRRequest(update) + UpdateNOC(node id)
@@ -287,11 +288,17 @@ enum Op {
     Crash,
 }
 
-fn parse_sess(c: char) -> Sess {
-    match c {
-        'p' => Sess::P,
-        d => Sess::C(d.to_digit(10).unwrap() as u8),
-    }
+/// the session of an operation token: `p`, or the fabric index (one or more digits) of a CASE session;
+/// returns it with the rest of the token (the arguments, without the leading `:`)
+fn parse_sess(t: &str) -> (Sess, &str) {
+    let body = &t[1..];
+    let (s, rest) = if let Some(r) = body.strip_prefix('p') {
+        (Sess::P, r)
+    } else {
+        let n = body.chars().take_while(|c| c.is_ascii_digit()).count();
+        (Sess::C(body[..n].parse().unwrap()), &body[n..])
+    };
+    (s, rest.strip_prefix(':').unwrap_or(rest))
 }
 
 fn parse_op(t: &str) -> Op {
@@ -308,8 +315,8 @@ fn parse_op(t: &str) -> Op {
         }
         _ => {}
     }
-    let s = parse_sess(t.chars().nth(1).unwrap());
-    let rest: Vec<&str> = if t.len() > 2 { t[3..].split(':').collect() } else { vec![] };
+    let (s, args) = parse_sess(t);
+    let rest: Vec<&str> = if args.is_empty() { vec![] } else { args.split(':').collect() };
     let n = |i: usize| -> u64 { rest[i].parse().unwrap() };
     match kind {
         'A' => Op::Arm(s, n(0) as u16),
@@ -401,7 +408,7 @@ fn op_sess(op: &Op) -> Option<Sess> {
 fn sess_ids(s: Sess, pase_gen: u16) -> (u16, u16) {
     match s {
         Sess::P => (40 + pase_gen, 140 + pase_gen),
-        Sess::C(f) => (10 + f as u16, 110 + f as u16),
+        Sess::C(f) => (1000 + f as u16, 2000 + f as u16),
     }
 }
 
@@ -1090,12 +1097,18 @@ fn run_incarnation(base: &Base, cm: &mut Ctl, kv: &MemKv, ops: &[Op], start: usi
                                 Ok(csr) => {
                                     // 2. root (AddNOC only): the next unused one
                                     let r_idx = if is_add {
+                                        // (a commissioner never brings a root that one of the node's fabrics
+                                        // already has: AddNOC would answer FabricConflict)
                                         let mut c = cm.borrow_mut();
-                                        let r = c.next_root;
-                                        c.next_root = (c.next_root + 1) % NROOTS;
-                                        if c.next_root < 2 {
-                                            c.next_root = 2;
+                                        let mut r = c.next_root;
+                                        for _ in 0..NROOTS {
+                                            let in_use = dev.with_state(|state| state.fabrics.iter().any(|f| f.root_ca() == &base.roots[r].cert[..]));
+                                            if !in_use {
+                                                break;
+                                            }
+                                            r = if r + 1 >= NROOTS { 2 } else { r + 1 };
                                         }
+                                        c.next_root = if r + 1 >= NROOTS { 2 } else { r + 1 };
                                         r
                                     } else {
                                         // the root of the session's fabric
@@ -1381,21 +1394,54 @@ fn run_incarnation(base: &Base, cm: &mut Ctl, kv: &MemKv, ops: &[Op], start: usi
     })
 }
 
-fn initial_blobs(base: &Base, nfab: usize) -> BTreeMap<u16, Vec<u8>> {
+/// The initial state of a case: `<n><p>` = n commissioned fabrics (indexes 1..n, n <= 2), or
+/// `i<idx>+<idx>..:<p>` = commissioned fabrics at these local indexes (what a node that has seen
+/// many commissionings and removals looks like); p = a PASE session is present.
+fn parse_init(s: &str) -> (Vec<u8>, bool) {
+    if let Some(r) = s.strip_prefix('i') {
+        let (idx, p) = r.split_once(':').unwrap();
+        (idx.split('+').filter(|x| !x.is_empty()).map(|x| x.parse().unwrap()).collect(), p == "1")
+    } else {
+        let b = s.as_bytes();
+        ((1..=(b[0] - b'0').min(2)).collect(), b[1] == b'1')
+    }
+}
+
+fn initial_blobs(base: &Base, idxs: &[u8], custom: bool) -> BTreeMap<u16, Vec<u8>> {
     let mut m = BTreeMap::new();
-    for i in 0..nfab.min(2) {
-        m.insert(1 + i as u16, base.fab_blobs[i].clone());
+    for (n, i) in idxs.iter().enumerate() {
+        let blob = if custom {
+            // the persisted form of fabric 1 with another local index: the index is the first member
+            // of the structure (15 | 24 00 <idx> | ...)
+            let mut b = base.fab_blobs[0].clone();
+            assert!(b[0] == 0x15 && b[1] == 0x24 && b[2] == 0x00 && b[3] == 1, "fabric blob layout");
+            b[3] = *i;
+            // ... and every access control entry carries it once more (24 fe <idx>)
+            let mut k = 4;
+            while k + 2 < b.len() {
+                if b[k] == 0x24 && b[k + 1] == 0xfe && b[k + 2] == 1 {
+                    b[k + 2] = *i;
+                }
+                k += 1;
+            }
+            // the result must read back as a fabric of that index whose entries are its own
+            let f = Fabric::from_tlv(&TLVElement::new(&b)).expect("patched fabric blob");
+            assert!(f.fab_idx().get() == *i, "patched fabric index");
+            assert!(f.acl_iter().all(|e| e.fab_idx == NonZeroU8::new(*i)), "patched ACL fabric index");
+            b
+        } else {
+            base.fab_blobs[n].clone()
+        };
+        m.insert(*i as u16, blob);
     }
     m
 }
 
 fn run_s(base: &Base, f: &[&str]) -> String {
-    let init = f[2].as_bytes();
-    let nfab = (init[0] - b'0') as usize;
-    let pase = init[1] == b'1';
+    let (idxs, pase) = parse_init(f[2]);
     let ops: Vec<Op> = f.get(3).map(|s| s.split(',').filter(|x| !x.is_empty()).map(parse_op).collect()).unwrap_or_default();
     let mut cm = Ctl { next_root: 2, pase_gen: 0, scoped_total: 0 };
-    let blobs0 = initial_blobs(base, nfab);
+    let blobs0 = initial_blobs(base, &idxs, f[2].starts_with('i'));
     let kv = MemKv::from_blobs(blobs0.clone());
     let mut recs: Vec<OpRec> = Vec::new();
     let mut start = 0usize;
